@@ -1,0 +1,7 @@
+//go:build !verif
+
+package events
+
+// vpoint marks a schedule point for the external verification harness. Without
+// the "verif" build tag it is an empty function that the compiler inlines away.
+func vpoint(string) {}
